@@ -516,7 +516,7 @@ theorem container_shape (Z : Zlib) (cap level : Nat) (p : Bytes) (h : PayloadOK 
 /-- **the inflater on a file cut off anywhere behind the statistics block** -/
 theorem containerLoop_prefix (Z : Zlib) (hZ : ZRT Z) (cap level : Nat) : ∀ (P : List Bytes),
     (∀ p ∈ P, PayloadOK Z cap level p) → ∀ (m : Nat) (cs : CState) (fuel : Nat), StreamOK cs.st → cs.died = false →
-    cs.st.inp.drop cs.st.pos = (flattenB (P.map (encodeContainer Z cap level))).take m → P.length + 1 < fuel →
+    cs.st.inp.drop cs.st.pos = (flattenB (P.map (encodeContainer Z cap level))).take m → kOf Z cap level P m + 1 < fuel →
     (containerLoop Z cap fuel cs).conts = (contsOf (P.take (kOf Z cap level P m))).reverse ++ cs.conts ∧
     (containerLoop Z cap fuel cs).died = false := by
   intro P
@@ -557,7 +557,8 @@ theorem containerLoop_prefix (Z : Zlib) (hZ : ZRT Z) (cap level : Nat) : ∀ (P 
         have h2 : cs.st.inp.length - ((flattenB (l.map (encodeContainer Z cap level))).take (m - (encodeContainer Z cap level p).length)).length =
             cs.st.pos + (encodeContainer Z cap level p).length := by omega
         rw [h2, ← List.drop_drop, hin1]; simp
-      obtain ⟨h1, h2⟩ := ih (fun q hq => hP q (by simp [hq])) _ cs' n hok' hdied hin' (by simp at hf; omega)
+      obtain ⟨h1, h2⟩ := ih (fun q hq => hP q (by simp [hq])) _ cs' n hok' hdied hin'
+        (by simp only [kOf, if_pos (show cBody Z level p ≤ m by omega)] at hf; omega)
       unfold containerLoop
       rw [hstep]
       simp only [hdied, hstop, Bool.or_self, Bool.false_eq_true, if_false, hok'.good, Bool.not_true]
@@ -578,7 +579,7 @@ theorem containerLoop_prefix (Z : Zlib) (hZ : ZRT Z) (cap level : Nat) : ∀ (P 
         obtain ⟨cs', hstep, hok', hinp, hpos, hconts, _, hdied, hstop⟩ :=
           containerStep_tail Z hZ cap level p (zeros (m - cBody Z level p)) cs hp.len hp.stored hp.cap1 hp.cap2 hok
             (by simp [zeros_length]; omega) hin1
-        obtain ⟨n', rfl⟩ : ∃ n', n = n' + 1 := ⟨n - 1, by simp at hf; omega⟩
+        obtain ⟨n', rfl⟩ : ∃ n', n = n' + 1 := ⟨n - 1, by simp only [kOf, if_pos hbody] at hf; omega⟩
         unfold containerLoop
         rw [hstep]
         simp only [hdied, hstop, Bool.or_self, Bool.false_eq_true, if_false, hok'.good, Bool.not_true]
@@ -600,5 +601,31 @@ theorem containerLoop_prefix (Z : Zlib) (hZ : ZRT Z) (cap level : Nat) : ∀ (P 
         · rw [hstep]
           simp only [hstop, Bool.or_true, if_true]
           exact ⟨by rw [hconts]; simp [kOf, if_neg hbody, contsOf], by rw [hdied]; exact hdd⟩
+
+theorem kOf_le (Z : Zlib) (cap level : Nat) : ∀ (P : List Bytes), (∀ p ∈ P, PayloadOK Z cap level p) →
+    ∀ (m : Nat), kOf Z cap level P m ≤ P.length ∧ kOf Z cap level P m ≤ m := by
+  intro P
+  induction P with
+  | nil => intro _ m; simp [kOf]
+  | cons p l ih =>
+    intro hP m
+    simp only [kOf]
+    by_cases h : cBody Z level p ≤ m
+    · rw [if_pos h]
+      obtain ⟨h1, h2⟩ := ih (fun q hq => hP q (by simp [hq])) (m - (encodeContainer Z cap level p).length)
+      obtain ⟨hshape, hlenB⟩ := container_shape Z cap level p (hP p (by simp))
+      have hlenE : cBody Z level p ≤ (encodeContainer Z cap level p).length := by
+        have := congrArg List.length hshape
+        rw [List.length_append, hlenB] at this
+        omega
+      have h32 : 32 ≤ cBody Z level p := by unfold cBody; omega
+      simp only [List.length_cons]
+      constructor
+      · omega
+      · by_cases hc : (encodeContainer Z cap level p).length ≤ m
+        · omega
+        · have : m - (encodeContainer Z cap level p).length = 0 := by omega
+          rw [this, kOf_zero]; omega
+    · rw [if_neg h]; exact ⟨Nat.zero_le _, Nat.zero_le _⟩
 
 end Blf.ContainerTrunc
